@@ -1,4 +1,5 @@
 // atsmon: runtime monitoring of the ATS order-book contract. See /verif/DESIGN.md.
+mod big;
 mod engine;
 mod exact;
 mod gen;
